@@ -1208,6 +1208,9 @@ class SymInterp(ce.Interp):
             except ce.Unsupported:
                 v = Opaque("error value")
             return ("Err", v)
+        if f.get("k") == "path" and "::" not in f["p"] and isinstance(fr.vars.get(f["p"]), ce.ClosureV) and f["p"] not in self.extern_fns:
+            # a local closure called by name (`let sextet = |i| TABLE[..]; sextet(x)`): its body in a copy of the defining frame
+            return self.call_closure(fr.vars[f["p"]], [self.eval(a, fr) for a in e.get("args") or []])
         return super()._e_call(e, fr)
 
     # ---- method calls (the receiver is evaluated exactly once) ------------------------------------
